@@ -57,7 +57,7 @@ def digest(obj: Any) -> str:
 
 
 def load_findings() -> List[dict]:
-    if not FINDINGS_FILE.exists():
+    if not FINDINGS_FILE.exists() or os.environ.get("VERIF_IGNORE_FINDINGS") == "1":
         return []
     data = json.loads(FINDINGS_FILE.read_text())
     return data.get("findings", [])
